@@ -369,21 +369,25 @@ def readyWrite (c : CS) : CS × Bool × Bool :=
       else (c, false, true)
     else
       if c.dev.toBuf.isEmpty then (c, true, false)
-      else if c.env.writeOk then ({ c with sys := c.sys ++ [.write c.dev.toBuf true], dev := { c.dev with toBuf := [] } }, false, false)
+      else if c.env.writeOk then
+        if c.env.wcap == 0 then ({ c with sys := c.sys ++ [.write [] true] }, true, false)
+        else ({ c with sys := c.sys ++ [.write (c.dev.toBuf.take c.env.wcap) true], dev := { c.dev with toBuf := c.dev.toBuf.drop c.env.wcap } }, false, false)
       else ({ c with sys := c.sys ++ [.write c.dev.toBuf false] }, true, false)
   else (c, false, false)
 
+/-- `_handle_read` + preprocessing once the capacity half (`clipRead`) is done: what happens with the bytes read -/
+def readyRd (c : CS) : CS × Bool :=
+  match c.env.read with
+  | some (some bs) =>
+    if bs.isEmpty then ({ c with sys := c.sys ++ [.read 0] }, true)
+    else ({ c with sys := c.sys ++ [.read bs.length],
+                   dev := if c.dev.isPipe then { c.dev with fromBuf := c.dev.fromBuf ++ bs } else telnetFilter c.dev bs }, false)
+  | some none => ({ c with sys := c.sys ++ [.read (-1)] }, true)
+  | none => ({ c with sys := c.sys ++ [.abort "no read answer"], aborted := true }, false)
+
 /-- `_handle_ready_device`, "ready for reading" (`f` = the poll flags) -/
 def readyRead (f : Nat) (c : CS) : CS × Bool :=
-  if f &&& 1 != 0 then
-    match c.env.read with
-    | some (some bs) =>
-      if bs.isEmpty then ({ c with sys := c.sys ++ [.read 0] }, true)
-      else ({ c with sys := c.sys ++ [.read bs.length],
-                     dev := if c.dev.isPipe then { c.dev with fromBuf := c.dev.fromBuf ++ bs } else telnetFilter c.dev bs }, false)
-    | some none => ({ c with sys := c.sys ++ [.read (-1)] }, true)
-    | none => ({ c with sys := c.sys ++ [.abort "no read answer"], aborted := true }, false)
-  else (c, false)
+  if f &&& 1 != 0 then readyRd (clipRead c) else (c, false)
 
 /-- `handleReady` cut into its two halves -/
 theorem handleReady_eq (c : CS) :
@@ -395,7 +399,7 @@ theorem handleReady_eq (c : CS) :
        if (readyWrite c).2.2 then ((readyWrite c).1, false) else
        readyRead c.env.revents (readyWrite c).1) := rfl
 
-/-- what the daemon appends to `fromBuf` when the device's descriptor delivered `bs`: the bytes themselves on a
+/-- what the daemon appends to `fromBuf` when it has read `bs` from the device's descriptor: the bytes themselves on a
     coprocess, the decoder's output continued from the carried state on a tcp device -/
 def keptOf (d : Dev) (bs : Bytes) : Bytes := if d.isPipe then bs else (decodeFrom d.tstate d.tcmd bs).kept
 
@@ -409,6 +413,9 @@ theorem absorb_fromBuf (d : Dev) (bs : Bytes) : (absorb d bs).fromBuf = d.fromBu
 theorem absorb_isPipe (d : Dev) (bs : Bytes) : (absorb d bs).isPipe = d.isPipe := by
   unfold absorb; split <;> simp [telnetFilter_eq]
 
+theorem absorb_fromSize (d : Dev) (bs : Bytes) : (absorb d bs).fromSize = d.fromSize := by
+  unfold absorb; split <;> simp [telnetFilter_eq]
+
 theorem absorb_state (d : Dev) (bs : Bytes) :
     ((absorb d bs).tstate, (absorb d bs).tcmd) =
       if d.isPipe then (d.tstate, d.tcmd) else ((decodeFrom d.tstate d.tcmd bs).st, (decodeFrom d.tstate d.tcmd bs).cmd) := by
@@ -420,28 +427,63 @@ theorem absorb_append (d : Dev) (a b : Bytes) : absorb (absorb d a) b = absorb d
   · simp [telnetFilter_eq, decodeFrom_append, h]
   · simp
 
-theorem readyRead_cases (f : Nat) (c : CS) :
-    ((readyRead f c).1.dev = c.dev) ∨
-    (∃ bs, c.env.read = some (some bs) ∧ bs ≠ [] ∧ f &&& 1 ≠ 0 ∧ (readyRead f c).2 = false ∧
-      (readyRead f c).1.dev = absorb c.dev bs) := by
-  unfold readyRead absorb
+theorem readyRd_cases (c : CS) :
+    ((∀ bs, c.env.read = some (some bs) → bs = []) ∧ (readyRd c).1.dev = c.dev) ∨
+    (∃ bs, c.env.read = some (some bs) ∧ bs ≠ [] ∧ (readyRd c).2 = false ∧
+      (readyRd c).1.dev = absorb c.dev bs) := by
+  unfold readyRd absorb
   split
   · split
-    · split
-      · left; rfl
-      · rename_i hf _ bs hr hbs
-        right; exact ⟨bs, hr, by simpa using hbs, by simpa using hf, rfl, rfl⟩
-    · left; rfl
-    · left; rfl
-  · left; rfl
+    · rename_i bs hr hbs
+      left; refine ⟨fun bs' h' => ?_, rfl⟩
+      rw [hr] at h'; cases h'; simpa using hbs
+    · rename_i bs hr hbs
+      right; exact ⟨bs, hr, by simpa using hbs, rfl, rfl⟩
+  · rename_i hr; left; exact ⟨fun bs' h' => (by rw [hr] at h'; cases h'), rfl⟩
+  · rename_i hr; left; exact ⟨fun bs' h' => (by rw [hr] at h'; cases h'), rfl⟩
 
-/-- when the read branch runs with data `bs` -/
-theorem readyRead_data (f : Nat) (c : CS) (bs : Bytes) (hf : f &&& 1 ≠ 0) (hr : c.env.read = some (some bs)) (hbs : bs ≠ []) :
-    readyRead f c = ({ c with sys := c.sys ++ [.read bs.length], dev := absorb c.dev bs }, false) := by
-  unfold readyRead absorb
+/-- the read half, every case: either nothing is taken in — the device is as before except, possibly, for the size of
+    its input buffer (which grows when it is full, before the `read` is attempted) — or the kernel had `bs`, non-empty,
+    and the daemon took in `readOf c.dev bs`, the prefix its buffer asked for, after the capacity half `devClip` -/
+theorem readyRead_cases (f : Nat) (c : CS) :
+    (∃ n, (readyRead f c).1.dev = { c.dev with fromSize := n }) ∨
+    (∃ bs, c.env.read = some (some bs) ∧ bs ≠ [] ∧ f &&& 1 ≠ 0 ∧ (readyRead f c).2 = false ∧
+      (readyRead f c).1.dev = absorb (devClip c.dev bs) (readOf c.dev bs)) := by
+  unfold readyRead
+  split
+  · rename_i hf
+    rcases readyRd_cases (clipRead c) with ⟨h1, h2⟩ | ⟨bs', h1, h2, h3, h4⟩
+    · left
+      refine ⟨clipSize c, ?_⟩
+      rw [h2]
+      apply clipRead_dev_nodata
+      intro bs hr
+      have := h1 _ (clipRead_read_data c bs hr)
+      exact Classical.byContradiction fun hne => readOf_ne_nil c.dev bs hne this
+    · right
+      obtain ⟨bs, hb1, hb2⟩ := clipRead_data_inv c bs' h1
+      refine ⟨bs, hb1, ?_, by simpa using hf, h3, ?_⟩
+      · intro h0; subst h0; rw [readOf_nil] at hb2; exact h2 hb2
+      · rw [h4, clipRead_dev_data c bs hb1, hb2]
+  · left; exact ⟨c.dev.fromSize, rfl⟩
+
+/-- when `readyRd` runs with data `bs` -/
+theorem readyRd_data (c : CS) (bs : Bytes) (hr : c.env.read = some (some bs)) (hbs : bs ≠ []) :
+    readyRd c = ({ c with sys := c.sys ++ [.read bs.length], dev := absorb c.dev bs }, false) := by
+  unfold readyRd absorb
   have : bs.isEmpty = false := by cases bs <;> simp_all
+  simp only [hr, this, Bool.false_eq_true, ↓reduceIte]
+
+/-- when the read branch runs and the kernel has `bs`: the capacity half, then `readOf c.dev bs` is taken in and logged -/
+theorem readyRead_data (f : Nat) (c : CS) (bs : Bytes) (hf : f &&& 1 ≠ 0) (hr : c.env.read = some (some bs)) (hbs : bs ≠ []) :
+    readyRead f c = ({ c with env := { c.env with read := some (some (readOf c.dev bs)) },
+                              sys := c.sys ++ [.read (readOf c.dev bs).length],
+                              dev := absorb (devClip c.dev bs) (readOf c.dev bs) }, false) := by
+  unfold readyRead
   have hf' : (f &&& 1 != 0) = true := by simpa using hf
-  simp only [hf', hr, this, ↓reduceIte, Bool.false_eq_true]
+  simp only [hf', ↓reduceIte]
+  rw [readyRd_data (clipRead c) (readOf c.dev bs) (clipRead_read_data c bs hr) (readOf_ne_nil c.dev bs hbs),
+    clipRead_data_eq c bs hr]
 
 /-- `tcp_finish_connect_one`: on success the connection is up and the telnet decoder is at rest (`_telnet_init`);
     on failure the device is untouched; the buffers are not touched either way -/
@@ -465,7 +507,8 @@ theorem finishConnectOne_env (c : CS) :
   · exact ⟨rfl, rfl, rfl⟩
 
 theorem readyWrite_fromBuf (c : CS) :
-    (readyWrite c).1.dev.fromBuf = c.dev.fromBuf ∧ (readyWrite c).1.dev.isPipe = c.dev.isPipe := by
+    (readyWrite c).1.dev.fromBuf = c.dev.fromBuf ∧ (readyWrite c).1.dev.isPipe = c.dev.isPipe ∧
+    (readyWrite c).1.dev.fromSize = c.dev.fromSize := by
   unfold readyWrite
   dsimp only
   rcases finishConnectOne_cases c with ⟨h1, h2⟩ | ⟨h1, h2⟩
@@ -478,7 +521,7 @@ theorem readyWrite_fromBuf (c : CS) :
     all_goals simp_all [enqueueLogin]
 
 /-- when the read bit is still looked at after the write half, the write half has not touched the connection, the
-    decoder or the environment: at most it has written `toBuf` out -/
+    decoder or the environment: at most it has written (part of) `toBuf` out -/
 theorem readyWrite_noskip (c : CS) (h : (readyWrite c).2.2 = false) :
     (readyWrite c).1.dev.tstate = c.dev.tstate ∧ (readyWrite c).1.dev.tcmd = c.dev.tcmd ∧
     (readyWrite c).1.dev.conn = c.dev.conn ∧ (readyWrite c).1.dev.statConnects = c.dev.statConnects ∧
@@ -519,25 +562,32 @@ deriving DecidableEq, Repr
 
 def rview (d : Dev) : RView := ⟨d.isPipe, d.tstate, d.tcmd, d.fromBuf⟩
 
-/-- the descriptor delivered `bs` -/
+/-- the daemon read `bs` from the descriptor -/
 def RView.read (v : RView) (bs : Bytes) : RView :=
   if v.isPipe then { v with buf := v.buf ++ bs }
   else { v with st := (decodeFrom v.st v.cmd bs).st, cmd := (decodeFrom v.st v.cmd bs).cmd, buf := v.buf ++ (decodeFrom v.st v.cmd bs).kept }
 
-/-- an `expect` consumed the first `k` bytes -/
+/-- the first `k` pending bytes went away: an `expect` consumed them, or — only when `MAX_DEV_BUF` unconsumed bytes are
+    pending — a `read` overwrote them -/
 def RView.consume (v : RView) (k : Nat) : RView := { v with buf := v.buf.drop k }
 
 theorem rview_absorb (d : Dev) (bs : Bytes) : rview (absorb d bs) = (rview d).read bs := by
   unfold absorb rview RView.read
   cases h : d.isPipe <;> simp [telnetFilter_eq, h]
 
+theorem rview_devClip (d : Dev) (bs : Bytes) : rview (devClip d bs) = (rview d).consume (dropOf d bs) := rfl
+
+theorem rview_setFromSize (d : Dev) (n : Nat) : rview { d with fromSize := n } = rview d := rfl
+
 /-- C09 read side, one call of `_handle_ready_device`, every case: either nothing was taken in, or the read branch
-    ran and the view advanced by exactly the bytes read, or a connection attempt completed and the decoder was reset -/
+    ran — the kernel had `bs`, the daemon read the prefix `readOf c.dev bs` its buffer asked for, and the view advanced by
+    exactly these bytes after losing its `dropOf c.dev bs` oldest ones (0 unless the buffer is full at `MAX_DEV_BUF`) —,
+    or a connection attempt completed and the decoder was reset -/
 theorem handleReady_view (c : CS) :
     rview (handleReady c).1.dev = rview c.dev ∧ (handleReady c).1.dev.statConnects = c.dev.statConnects ∨
     (∃ bs, c.env.read = some (some bs) ∧ bs ≠ [] ∧ c.env.revents &&& 1 ≠ 0 ∧ (handleReady c).2 = false ∧
        (handleReady c).1.dev.conn = c.dev.conn ∧ (handleReady c).1.dev.statConnects = c.dev.statConnects ∧
-       rview (handleReady c).1.dev = (rview c.dev).read bs) ∨
+       rview (handleReady c).1.dev = ((rview c.dev).consume (dropOf c.dev bs)).read (readOf c.dev bs)) ∨
     (c.dev.conn = 1 ∧ (handleReady c).1.dev.conn = 2 ∧ (handleReady c).2 = false ∧
        (handleReady c).1.dev.statConnects = c.dev.statConnects + 1 ∧
        rview (handleReady c).1.dev = { rview c.dev with st := 0, cmd := 0 }) := by
@@ -552,34 +602,40 @@ theorem handleReady_view (c : CS) :
   cases hskip : (readyWrite c).2.2
   · have hn := readyWrite_noskip c hskip
     have hv : rview (readyWrite c).1.dev = rview c.dev := by
-      unfold rview; rw [hfb.1, hfb.2, hn.1, hn.2.1]
+      unfold rview; rw [hfb.1, hfb.2.1, hn.1, hn.2.1]
     split
     · left; exact ⟨hv, hn.2.2.2.1⟩
     · simp only [Bool.false_eq_true, ↓reduceIte]
-      rcases readyRead_cases c.env.revents (readyWrite c).1 with h | ⟨bs, h1, h2, h3, h4, h5⟩
-      · left; rw [h]; exact ⟨hv, hn.2.2.2.1⟩
+      rcases readyRead_cases c.env.revents (readyWrite c).1 with ⟨n, h⟩ | ⟨bs, h1, h2, h3, h4, h5⟩
+      · left; rw [h]; exact ⟨by rw [rview_setFromSize]; exact hv, hn.2.2.2.1⟩
       · right; left
+        have hro : readOf (readyWrite c).1.dev bs = readOf c.dev bs := readOf_congr hfb.2.2 hfb.1 bs
+        have hdo : dropOf (readyWrite c).1.dev bs = dropOf c.dev bs := by
+          unfold dropOf devReadPlan; rw [hfb.2.2, hfb.1]
         refine ⟨bs, by rw [← hn.2.2.2.2]; exact h1, h2, h3, h4, ?_, ?_, ?_⟩
         · rw [h5]; unfold absorb; split <;> simp [telnetFilter_eq, hn.2.2.1]
         · rw [h5]; unfold absorb; split <;> simp [telnetFilter_eq, hn.2.2.2.1]
-        · rw [h5, rview_absorb, hv]
+        · rw [h5, rview_absorb, rview_devClip, hv, hro, hdo]
   · obtain ⟨h1, h2⟩ := readyWrite_skip c hskip
     rcases h2 with ⟨ha, hb, hc, hd, he⟩ | ⟨ha, hb, hc, hd, he⟩
     · right; right
       simp only [ha, Bool.false_eq_true, ↓reduceIte]
       refine ⟨h1, hb, trivial, he, ?_⟩
-      unfold rview; rw [hfb.1, hfb.2, hc, hd]
+      unfold rview; rw [hfb.1, hfb.2.1, hc, hd]
     · left
       simp only [ha, ↓reduceIte]
       refine ⟨?_, he⟩
-      unfold rview; rw [hfb.1, hfb.2, hc, hd]
+      unfold rview; rw [hfb.1, hfb.2.1, hc, hd]
 
-/-- the write half when the device is connected and there is something to write: all of `toBuf` in one `write`;
-    `toBuf` is emptied if the write succeeds and kept if it fails (the failure is an I/O error: the caller reconnects) -/
+/-- the write half when the device is connected and there is something to write: one `write` of `toBuf`, of which the
+    kernel takes the first `wcap` bytes — the rest stays queued; `EAGAIN` (`wcap = 0`) and a failed `write` keep `toBuf`
+    and are I/O errors (the caller reconnects) -/
 theorem readyWrite_connected (c : CS) (hf : c.env.revents &&& 2 ≠ 0) (hc : c.dev.conn ≠ 1) (hb : c.dev.toBuf ≠ []) :
     readyWrite c =
       if c.env.writeOk then
-        ({ c with sys := c.sys ++ [.write c.dev.toBuf true], dev := { c.dev with toBuf := [] } }, false, false)
+        if c.env.wcap == 0 then ({ c with sys := c.sys ++ [.write [] true] }, true, false)
+        else ({ c with sys := c.sys ++ [.write (c.dev.toBuf.take c.env.wcap) true],
+                       dev := { c.dev with toBuf := c.dev.toBuf.drop c.env.wcap } }, false, false)
       else ({ c with sys := c.sys ++ [.write c.dev.toBuf false] }, true, false) := by
   unfold readyWrite
   have hf' : (c.env.revents &&& 2 != 0) = true := by simpa using hf
@@ -617,42 +673,56 @@ theorem handleReady_ok (c : CS) (h : ReadyOk c) :
     simp [h.noHup, h.noErr, h.noNval]
   simp only [h1, h2, h3, ↓reduceIte, Bool.false_eq_true]
 
-/-- C09 read side, the read branch alone (poll reported the descriptor readable, not writable): the daemon takes in
-    exactly the bytes read -/
+/-- C09 read side, the read branch alone (poll reported the descriptor readable, not writable; the kernel has `bs`):
+    the capacity half (`clipRead`: the buffer grows if it is full, `dropOf c.dev bs` oldest bytes give way), then the
+    daemon takes in exactly the bytes read, `readOf c.dev bs` -/
 theorem handleReady_read_only (c : CS) (bs : Bytes) (h : ReadyOk c)
     (hout : c.env.revents &&& 2 = 0) (hin : c.env.revents &&& 1 ≠ 0)
     (hr : c.env.read = some (some bs)) (hbs : bs ≠ []) :
-    handleReady c = ({ c with sys := c.sys ++ [.read bs.length], dev := absorb c.dev bs }, false) := by
+    handleReady c = ({ c with env := { c.env with read := some (some (readOf c.dev bs)) },
+                              sys := c.sys ++ [.read (readOf c.dev bs).length],
+                              dev := absorb (devClip c.dev bs) (readOf c.dev bs) }, false) := by
   rw [handleReady_ok c h, readyWrite_idle c hout]
   simp only [Bool.false_eq_true, ↓reduceIte]
   exact readyRead_data _ _ _ hin hr hbs
 
-/-- C09 both sides in one call (readable and writable, connected, something queued, the write succeeds): `toBuf` is
-    written out whole, then the bytes read are taken in (option replies of this read are queued behind) -/
+/-- C09 both sides in one call (readable and writable, connected, something queued, the kernel takes `wcap ≥ 1`
+    bytes): the first `wcap` bytes of `toBuf` are written out, then the bytes read are taken in (option replies of this
+    read are queued behind what stayed) -/
 theorem handleReady_write_read (c : CS) (bs : Bytes) (h : ReadyOk c)
     (hout : c.env.revents &&& 2 ≠ 0) (hin : c.env.revents &&& 1 ≠ 0) (hc : c.dev.conn ≠ 1) (hb : c.dev.toBuf ≠ [])
-    (hw : c.env.writeOk = true) (hr : c.env.read = some (some bs)) (hbs : bs ≠ []) :
+    (hw : c.env.writeOk = true) (hcap : c.env.wcap ≠ 0) (hr : c.env.read = some (some bs)) (hbs : bs ≠ []) :
     handleReady c =
-      ({ c with sys := c.sys ++ [.write c.dev.toBuf true, .read bs.length],
-                dev := absorb { c.dev with toBuf := [] } bs }, false) := by
+      ({ c with env := { c.env with read := some (some (readOf c.dev bs)) },
+                sys := c.sys ++ [.write (c.dev.toBuf.take c.env.wcap) true, .read (readOf c.dev bs).length],
+                dev := absorb (devClip { c.dev with toBuf := c.dev.toBuf.drop c.env.wcap } bs) (readOf c.dev bs) }, false) := by
   rw [handleReady_ok c h, readyWrite_connected c hout hc hb]
-  simp only [hw, ↓reduceIte, Bool.false_eq_true]
+  have hcap' : (c.env.wcap == 0) = false := by simpa using hcap
+  simp only [hw, hcap', ↓reduceIte, Bool.false_eq_true]
   rw [readyRead_data _ _ bs hin (by exact hr) hbs]
-  simp [List.append_assoc]
+  have e1 : readOf { c.dev with toBuf := c.dev.toBuf.drop c.env.wcap } bs = readOf c.dev bs := readOf_congr rfl rfl bs
+  dsimp only
+  rw [e1]
+  simp only [List.append_assoc, List.cons_append, List.nil_append, hw]
 
-/-- device write side, the write branch alone: on success the `write` payload is exactly `toBuf` and `toBuf` becomes
-    empty; on failure the payload offered was `toBuf`, `toBuf` is unchanged and an I/O error is reported -/
+/-- device write side, the write branch alone: the kernel takes the first `wcap` bytes of `toBuf` and the rest stays
+    queued (`wcap ≥ 1`; not an error); `wcap = 0` is `EAGAIN` — an empty write is logged, `toBuf` is unchanged and an I/O
+    error is reported; on failure the payload offered was `toBuf`, `toBuf` is unchanged and an I/O error is reported -/
 theorem handleReady_write_only (c : CS) (h : ReadyOk c)
     (hout : c.env.revents &&& 2 ≠ 0) (hin : c.env.revents &&& 1 = 0) (hc : c.dev.conn ≠ 1) (hb : c.dev.toBuf ≠ []) :
     handleReady c =
       if c.env.writeOk then
-        ({ c with sys := c.sys ++ [.write c.dev.toBuf true], dev := { c.dev with toBuf := [] } }, false)
+        if c.env.wcap == 0 then ({ c with sys := c.sys ++ [.write [] true] }, true)
+        else ({ c with sys := c.sys ++ [.write (c.dev.toBuf.take c.env.wcap) true],
+                       dev := { c.dev with toBuf := c.dev.toBuf.drop c.env.wcap } }, false)
       else ({ c with sys := c.sys ++ [.write c.dev.toBuf false] }, true) := by
   rw [handleReady_ok c h, readyWrite_connected c hout hc hb]
   cases hw : c.env.writeOk
   · simp
-  · simp only [↓reduceIte, Bool.false_eq_true]
-    rw [readyRead_idle _ _ hin]
+  · cases hcap : (c.env.wcap == 0)
+    · simp only [↓reduceIte, Bool.false_eq_true]
+      rw [readyRead_idle _ _ hin]
+    · simp
 
 /-! `_process_expect` -/
 
@@ -806,15 +876,31 @@ theorem trace_pipe (st : Nat) (cmd : UInt8) (evs : List Ev) :
 
 /-! ### the same on the model's own steps -/
 
-/-- the bytes `_handle_ready_device` takes in: the data of the `read` when the read branch is reached and the
-    descriptor delivered some, nothing otherwise -/
+/-- the bytes `_handle_ready_device` takes in: when the read branch is reached and the kernel has `bs`, the prefix of
+    `bs` that the `read` asked for (`readOf`: free space of the input buffer, or a chunk when it is full); nothing
+    otherwise -/
 def readTaken (c : CS) : Bytes :=
   if c.dev.conn == 0 || c.dev.fd.isNone ||
      (c.env.revents &&& 4 != 0 || c.env.revents &&& 8 != 0 || c.env.revents &&& 16 != 0) ||
      (readyWrite c).2.1 || (readyWrite c).2.2 || c.env.revents &&& 1 == 0 then []
   else match c.env.read with
-    | some (some bs) => bs
+    | some (some bs) => readOf c.dev bs
     | _ => []
+
+/-- the number of oldest pending bytes that `read` overwrites (`dropOf`: 0 unless the buffer is full at `MAX_DEV_BUF`) -/
+def readDropped (c : CS) : Nat :=
+  if c.dev.conn == 0 || c.dev.fd.isNone ||
+     (c.env.revents &&& 4 != 0 || c.env.revents &&& 8 != 0 || c.env.revents &&& 16 != 0) ||
+     (readyWrite c).2.1 || (readyWrite c).2.2 || c.env.revents &&& 1 == 0 then 0
+  else match c.env.read with
+    | some (some bs) => dropOf c.dev bs
+    | _ => 0
+
+theorem readOf_afterWrite (c : CS) (bs : Bytes) : readOf (readyWrite c).1.dev bs = readOf c.dev bs :=
+  readOf_congr (readyWrite_fromBuf c).2.2 (readyWrite_fromBuf c).1 bs
+
+theorem dropOf_afterWrite (c : CS) (bs : Bytes) : dropOf (readyWrite c).1.dev bs = dropOf c.dev bs := by
+  unfold dropOf devReadPlan; rw [(readyWrite_fromBuf c).2.2, (readyWrite_fromBuf c).1]
 
 /-- the bytes taken in are recorded as one `read` of that length at the end of the system-call log -/
 theorem handleReady_taken_sys (c : CS) (h : readTaken c ≠ []) :
@@ -833,32 +919,45 @@ theorem handleReady_taken_sys (c : CS) (h : readTaken c ≠ []) :
     have hin : c.env.revents &&& 1 ≠ 0 := by simpa using h6
     split at h
     · rename_i bs hr
-      rw [readyRead_data _ _ bs hin (by rw [hn.2.2.2.2]; exact hr) h]
+      have hbs : bs ≠ [] := by intro h0; subst h0; exact h (readOf_nil _)
+      rw [readyRead_data _ _ bs hin (by rw [hn.2.2.2.2]; exact hr) hbs, readOf_afterWrite]
       exact ⟨_, rfl⟩
     · exact absurd rfl h
 
-/-- on an established connection one call of `_handle_ready_device` advances the view by exactly `readTaken` -/
+theorem readyRead_nodata (f : Nat) (c : CS) (h : ∀ bs, c.env.read = some (some bs) → bs = []) :
+    ∃ n, (readyRead f c).1.dev = { c.dev with fromSize := n } := by
+  rcases readyRead_cases f c with h1 | ⟨bs, ha, hb, _⟩
+  · exact h1
+  · exact absurd (h bs ha) hb
+
+theorem RView.consume_zero (v : RView) : v.consume 0 = v := by simp [RView.consume]
+theorem RView.read_nil' (v : RView) : (v.consume 0).read [] = v := by
+  rw [RView.consume_zero, RView.read_nil]
+
+/-- on an established connection one call of `_handle_ready_device` advances the view by exactly `readTaken`, after the
+    `readDropped` oldest pending bytes were overwritten -/
 theorem handleReady_view_connected (c : CS) (h2 : c.dev.conn = 2) :
-    rview (handleReady c).1.dev = (rview c.dev).read (readTaken c) ∧ (handleReady c).1.dev.conn = 2 := by
-  unfold readTaken
+    rview (handleReady c).1.dev = ((rview c.dev).consume (readDropped c)).read (readTaken c) ∧
+    (handleReady c).1.dev.conn = 2 := by
+  unfold readTaken readDropped
   rw [handleReady_eq]
   have h1 : (c.dev.conn == 0) = false := by simp [h2]
   simp only [h1, Bool.false_eq_true, ↓reduceIte, Bool.false_or]
   split
   · rename_i hfd
-    simp only [hfd, Bool.true_or, ↓reduceIte]; exact ⟨(RView.read_nil _).symm, h2⟩
+    simp only [hfd, Bool.true_or, ↓reduceIte]; exact ⟨(RView.read_nil' _).symm, h2⟩
   rename_i hfd
   simp only [hfd, Bool.false_or]
   split
   · rename_i hfl
-    simp only [hfl, Bool.true_or, ↓reduceIte]; exact ⟨(RView.read_nil _).symm, h2⟩
+    simp only [hfl, Bool.true_or, ↓reduceIte]; exact ⟨(RView.read_nil' _).symm, h2⟩
   rename_i hfl
   simp only [hfl, Bool.false_or]
   have hfb := readyWrite_fromBuf c
   cases hskip : (readyWrite c).2.2
   · have hn := readyWrite_noskip c hskip
     have hv : rview (readyWrite c).1.dev = rview c.dev := by
-      unfold rview; rw [hfb.1, hfb.2, hn.1, hn.2.1]
+      unfold rview; rw [hfb.1, hfb.2.1, hn.1, hn.2.1]
     have hc : (readyWrite c).1.dev.conn = 2 := by rw [hn.2.2.1]; exact h2
     cases hio : (readyWrite c).2.1
     · simp only [Bool.false_eq_true, ↓reduceIte, Bool.false_or]
@@ -866,33 +965,37 @@ theorem handleReady_view_connected (c : CS) (h2 : c.dev.conn = 2) :
       · rw [readyRead_idle _ _ hin]
         have : (c.env.revents &&& 1 == 0) = true := by simpa using hin
         simp only [this, ↓reduceIte]
-        exact ⟨by rw [hv, RView.read_nil], hc⟩
+        exact ⟨by rw [hv, RView.read_nil'], hc⟩
       · have : (c.env.revents &&& 1 == 0) = false := by simpa using hin
         simp only [this, Bool.false_eq_true, ↓reduceIte]
-        rcases readyRead_cases c.env.revents (readyWrite c).1 with h | ⟨bs, ha, hb, _, _, he⟩
-        · -- the read branch ran and took nothing in: then `env.read` is not `some (some (_ :: _))`
-          have hr : (match c.env.read with | some (some bs) => bs | _ => ([] : Bytes)) = [] ∨
-              ∃ bs, c.env.read = some (some bs) ∧ bs ≠ [] := by
-            cases hh : c.env.read with
-            | none => left; rfl
-            | some x => cases x with
-              | none => left; rfl
-              | some bs => cases bs with
-                | nil => left; rfl
-                | cons b r => right; exact ⟨_, rfl, by simp⟩
-          rcases hr with hr | ⟨bs, hr, hbs⟩
-          · rw [hr, h]; exact ⟨by rw [hv, RView.read_nil], hc⟩
-          · rw [readyRead_data _ _ bs hin (by rw [hn.2.2.2.2]; exact hr) hbs]
-            simp only [hr]
-            refine ⟨by rw [rview_absorb, hv], ?_⟩
-            unfold absorb; split <;> simp [telnetFilter_eq, hc]
-        · rw [hn.2.2.2.2] at ha
-          simp only [ha]
-          rw [he]
-          refine ⟨by rw [rview_absorb, hv], ?_⟩
-          unfold absorb; split <;> simp [telnetFilter_eq, hc]
+        have nodata : (∀ bs, c.env.read = some (some bs) → bs = []) →
+            rview (readyRead c.env.revents (readyWrite c).1).1.dev = rview c.dev ∧
+            (readyRead c.env.revents (readyWrite c).1).1.dev.conn = 2 := by
+          intro hnd
+          obtain ⟨n, hn'⟩ := readyRead_nodata c.env.revents (readyWrite c).1 (by rw [hn.2.2.2.2]; exact hnd)
+          rw [hn']; exact ⟨by rw [rview_setFromSize]; exact hv, hc⟩
+        cases hh : c.env.read with
+        | none =>
+          have := nodata (fun bs h => by rw [hh] at h; cases h)
+          exact ⟨by rw [this.1, RView.read_nil'], this.2⟩
+        | some x =>
+          cases x with
+          | none =>
+            have := nodata (fun bs h => by rw [hh] at h; cases h)
+            exact ⟨by rw [this.1, RView.read_nil'], this.2⟩
+          | some bs =>
+            cases bs with
+            | nil =>
+              have := nodata (fun bs h => by rw [hh] at h; cases h; rfl)
+              simp only [readOf_nil, dropOf_nil]
+              exact ⟨by rw [this.1, RView.read_nil'], this.2⟩
+            | cons b r =>
+              rw [readyRead_data _ _ (b :: r) hin (by rw [hn.2.2.2.2]; exact hh) (by simp)]
+              simp only
+              refine ⟨by rw [rview_absorb, rview_devClip, hv, readOf_afterWrite, dropOf_afterWrite], ?_⟩
+              unfold absorb; split <;> simp [telnetFilter_eq, hc]
     · simp only [↓reduceIte, Bool.true_or]
-      exact ⟨by rw [hv, RView.read_nil], hc⟩
+      exact ⟨by rw [hv, RView.read_nil'], hc⟩
   · have := (readyWrite_skip c hskip).1
     omega
 
@@ -906,15 +1009,16 @@ def Op.run (d : Dev) : Op → Dev
   | .ready env => (handleReady { dev := d, env := env, sys := [] }).1.dev
   | .expect a o pat => (stmtExpect d a o pat).dev
 
-/-- bytes the descriptor delivered in this step -/
+/-- bytes read from the descriptor in this step -/
 def Op.taken (d : Dev) : Op → Bytes
   | .ready env => readTaken { dev := d, env := env, sys := [] }
   | .expect _ _ _ => []
 
-/-- bytes this step removed from the head of `fromBuf` -/
+/-- bytes this step removed from the head of `fromBuf`: what an `expect` matched; what a `read` overwrote (nothing unless
+    the buffer is full at `MAX_DEV_BUF`, `readDropped_eq_zero`) -/
 def Op.consumed (d : Dev) (op : Op) : Bytes :=
   match op with
-  | .ready _ => []
+  | .ready env => d.fromBuf.take (readDropped { dev := d, env := env, sys := [] })
   | .expect _ _ _ => d.fromBuf.take (d.fromBuf.length - (op.run d).fromBuf.length)
 
 def opsTaken (d : Dev) : List Op → Bytes
@@ -935,10 +1039,14 @@ theorem Op.run_view (d : Dev) (h2 : d.conn = 2) (op : Op) :
   cases op with
   | ready env =>
     have := handleReady_view_connected { dev := d, env := env, sys := [] } h2
-    simp only [Op.run, Op.taken, Op.consumed, List.nil_append]
+    simp only [Op.run, Op.taken, Op.consumed]
     rw [this.1]
-    refine ⟨this.2, ?_, RView.read_buf _ _, rfl⟩
-    unfold RView.read; split <;> rfl
+    refine ⟨this.2, ?_, ?_, ?_⟩
+    · unfold RView.read RView.consume; split <;> rfl
+    · rw [RView.read_buf, RView.consume_keptOf]
+      show List.take _ d.fromBuf ++ (List.drop _ d.fromBuf ++ _) = d.fromBuf ++ _
+      rw [← List.append_assoc, List.take_append_drop]
+    · unfold RView.read RView.consume; split <;> rfl
   | expect a o pat =>
     obtain ⟨k, hk⟩ := stmtExpect_view d a o pat
     simp only [Op.run, Op.taken, Op.consumed]
@@ -1149,9 +1257,9 @@ theorem absorb_conn (d : Dev) (bs : Bytes) : (absorb d bs).conn = d.conn := by
   unfold absorb; split <;> simp [telnetFilter_eq]
 
 theorem readyRead_conn (f : Nat) (c : CS) : (readyRead f c).1.dev.conn = c.dev.conn := by
-  rcases readyRead_cases f c with h | ⟨bs, _, _, _, _, he⟩
+  rcases readyRead_cases f c with ⟨n, h⟩ | ⟨bs, _, _, _, _, he⟩
   · rw [h]
-  · rw [he, absorb_conn]
+  · rw [he, absorb_conn, devClip_conn]
 
 /-- every way `_handle_ready_device` can bring a connection up leaves the decoder at rest and takes nothing in -/
 theorem handleReady_up (c : CS) (h : c.dev.conn ≠ 2) (h2 : (handleReady c).1.dev.conn = 2) :
@@ -1235,20 +1343,28 @@ def repliesOf (d : Dev) (bs : Bytes) : Bytes := if d.isPipe then [] else (decode
 theorem absorb_toBuf (d : Dev) (bs : Bytes) : (absorb d bs).toBuf = d.toBuf ++ repliesOf d bs := by
   unfold absorb repliesOf; split <;> simp [telnetFilter_eq]
 
+theorem readyRd_conserve (c : CS) :
+    ∃ bs, devWritten (readyRd c).1.sys ++ (readyRd c).1.dev.toBuf =
+      devWritten c.sys ++ c.dev.toBuf ++ repliesOf c.dev bs := by
+  unfold readyRd
+  split
+  · split
+    · exact ⟨[], by cases h : c.dev.isPipe <;> simp [devWritten_append, devWritten, repliesOf, h]⟩
+    · rename_i bs _ _
+      refine ⟨bs, ?_⟩
+      show devWritten (c.sys ++ [Sys.read ↑bs.length]) ++ (absorb c.dev bs).toBuf = _
+      rw [absorb_toBuf]; simp [devWritten_append, devWritten]
+  · exact ⟨[], by cases h : c.dev.isPipe <;> simp [devWritten_append, devWritten, repliesOf, h]⟩
+  · exact ⟨[], by cases h : c.dev.isPipe <;> simp [devWritten_append, devWritten, repliesOf, h]⟩
+
 theorem readyRead_conserve (f : Nat) (c : CS) :
     ∃ bs, devWritten (readyRead f c).1.sys ++ (readyRead f c).1.dev.toBuf =
       devWritten c.sys ++ c.dev.toBuf ++ repliesOf c.dev bs := by
   unfold readyRead
   split
-  · split
-    · split
-      · exact ⟨[], by cases h : c.dev.isPipe <;> simp [devWritten_append, devWritten, repliesOf, h]⟩
-      · rename_i bs _ _
-        refine ⟨bs, ?_⟩
-        show devWritten (c.sys ++ [Sys.read ↑bs.length]) ++ (absorb c.dev bs).toBuf = _
-        rw [absorb_toBuf]; simp [devWritten_append, devWritten]
-    · exact ⟨[], by cases h : c.dev.isPipe <;> simp [devWritten_append, devWritten, repliesOf, h]⟩
-    · exact ⟨[], by cases h : c.dev.isPipe <;> simp [devWritten_append, devWritten, repliesOf, h]⟩
+  · obtain ⟨bs, h⟩ := readyRd_conserve (clipRead c)
+    refine ⟨bs, ?_⟩
+    rw [h]; unfold repliesOf; simp
   · exact ⟨[], by cases h : c.dev.isPipe <;> simp [repliesOf, h]⟩
 
 /-- device write side, one call of `_handle_ready_device`, every case: the bytes written successfully so far followed
@@ -1277,7 +1393,7 @@ theorem handleReady_write_conserve (c : CS) :
     refine ⟨bs, ?_⟩
     rw [hbs, hw]
     unfold repliesOf
-    rw [hn.1, hn.2.1, hfb.2]
+    rw [hn.1, hn.2.1, hfb.2.1]
 
 end Pm.Dev2.Tel
 
